@@ -303,6 +303,9 @@ func (l *linearPalette[T]) ReadFrom(r io.Reader) (n int64, err error) {
 	if size < 0 {
 		return n, fmt.Errorf("level: palette size is negative: %d", size)
 	}
+	if int(size) > 1<<l.bits {
+		return n, fmt.Errorf("level: palette size %d does not fit %d bits per entry", size, l.bits)
+	}
 	if int(size) > cap(l.values) {
 		l.values = make([]T, size)
 	} else {
@@ -369,6 +372,9 @@ func (h *hashPalette[T]) ReadFrom(r io.Reader) (n int64, err error) {
 	}
 	if size < 0 {
 		return n, fmt.Errorf("level: palette size is negative: %d", size)
+	}
+	if int(size) > 1<<h.bits {
+		return n, fmt.Errorf("level: palette size %d does not fit %d bits per entry", size, h.bits)
 	}
 	if int(size) > cap(h.values) {
 		h.values = make([]T, size)
